@@ -1,7 +1,7 @@
 """Configuration of ./check C08 (shared model coq/Ts)."""
 
 ENTRY = {'coq_dir': 'C08',
- 'coq_deps': ['Ts'],
+ 'coq_deps': ['Ts', 'Mgr', 'C06', 'C07', 'Link'],
  'model_files': ['Glue'],
  'harness': 'c08',
  'cases': {'quick': 1500, 'thorough': 10000},
@@ -74,14 +74,22 @@ ENTRY = {'coq_dir': 'C08',
                "single-service model's environment variable is discharged); ids returned to all services are strictly increasing in call order (no "
                'reuse across protocols); the command channel loses, duplicates and reorders nothing (taken ++ queued = issued). The model is tied to '
                'transport_service.rs / connection.rs / protocol_set.rs by per-operation differential runs with state dumps.',
- 'level_note': 'Trusted: Coq kernel, extraction, harness and hooks, the environment assumption (discharged by C06 for the connection count), the '
-               'atomic-handler abstraction. That the connection task answers every OpenSubstream command (tcp/connection.rs) is an explicit '
-               "hypothesis of C08_open_answered, not proved here (C07's side). The poll order of report_connection_established (a HashMap iteration "
-               'order) no longer matters since fix 2c7c81a; the harness still writes it into the case for the pre-fix variant of the model. The '
-               'composed stream uses capacity 1 so that every consumed event is observable on its own; larger capacities are covered by the '
-               'report-level stream only. In the composition the connection-level events reach all services in the same step. dial / dial_address / '
-               'add_known_address are only checked to leave the service untouched (their effect belongs to C05 / C10). ConnectionHandle::downgrade '
-               'panicking on a second report_connection_established of the same ProtocolSet is not modelled (every transport calls it once).',
- 'assumptions': ['at most two open connections per peer, fresh connection ids (C06)',
+ 'level_note': 'Trusted: Coq kernel, extraction, harness and hooks, the environment assumption (discharged by C06 for the connection count: formally '
+               'linked, the C08_*_under_manager corollaries restate the main theorems without `feasible 2` for the composed system manager + '
+               'protocol reports, coq/Link/C06_C08.v), the atomic-handler abstraction. That the connection task answers every OpenSubstream command '
+               "(tcp/connection.rs) is an explicit hypothesis of C08_open_answered, not proved here (C07's side). The poll order of "
+               'report_connection_established (a HashMap iteration order) no longer matters since fix 2c7c81a; the harness still writes it into the '
+               'case for the pre-fix variant of the model. The composed stream uses capacity 1 so that every consumed event is observable on its '
+               'own; larger capacities are covered by the report-level stream only. In the composition the connection-level events reach all '
+               'services in the same step. dial / dial_address / add_known_address are only checked to leave the service untouched (their effect '
+               'belongs to C05 / C10). ConnectionHandle::downgrade panicking on a second report_connection_established of the same ProtocolSet is '
+               'not modelled (every transport calls it once).',
+ 'assumptions': ['at most two open connections per peer, fresh connection ids (C06): an assumption of the base theorems (`feasible 2`); DISCHARGED '
+                 'for a service under the manager model by the link coq/Link/C06_C08.v (C08_stream_wellformed_under_manager, '
+                 'C08_alternation_under_manager, C08_no_panic_under_manager, C08_multi_stream_wellformed_under_manager; via '
+                 "C06_provides_C08_feasible) - left there: the manager's own environment and the order constraints `xtrace` (a THEOREM for protocol "
+                 'i of a node of connection tasks: C06_C08_xtrace_on_node, coq/Link/C07_C06.v, whence C08_stream_wellformed_on_node / '
+                 'C08_alternation_on_node with env_ok for transport-delivered events, globally fresh connection ids and a live protocol i left) and '
+                 'the cap-independent rest `feasible_rest` (next item)',
                  'per-connection FIFO: no substream/closed notification for a connection before its established or after its closed notification',
                  'HashMap / FuturesUnordered iteration order is not observable (dumps and downgrade lists are sorted)']}
